@@ -1751,7 +1751,10 @@ func (q *checker) bcheckExprBinaryOp1(op t.ID, lhs *a.Expr, lb bounds, rhs *a.Ex
 			return nb, nil
 		case t.IDXBinaryTildeModShiftL:
 			nb, _ := lb.TryLsh(rb)
-			nb[1] = min(nb[1], typeBounds[1])
+			if nb[1].Cmp(typeBounds[1]) > 0 {
+				// The modular shift can wrap around, to any value of the type.
+				return typeBounds, nil
+			}
 			return nb, nil
 		case t.IDXBinaryShiftR:
 			nb, _ := lb.TryRsh(rb)
